@@ -120,6 +120,41 @@ def long_digits_rule(rep, T, cls, f, probe):
            msg="the sign of a TYPE_LONG does not follow the sign of its size field: %s" % "; ".join(sign_bad[:2]))
 
 
+def dict_script(T, cls, f, passed, version, null_value):
+    """t_dict decided independently of how its loop is written: the reader is run with r_object replaced by a script of concrete objects ending in the
+    unmarshaller's own NULL sentinel; the dict it returns and the number of objects it consumed are compared with marshal.c's r_object loop
+    (read key; NULL ends; read value; NULL ends; store).  Returns a list of disagreements."""
+    from ..marshal_read import new_instance
+    from ..sve import Ret, Spec, leaves
+    bad = []
+    N = null_value
+    for script, want, nread in ((["k1", "v1", "k2", "v2", N], {"k1": "v1", "k2": "v2"}, 5), (["k1", N], {}, 2), ([None, "v1", N], {None: "v1"}, 3), (["k1", None, N], {"k1": None}, 3),
+                                ([N], {}, 1), ([0, False, "", (), N, "x"], {0: False, "": ()}, 5)):
+        it = iter(script)
+        n = [0]
+
+        def hook(spec, name, fv, args, kw, node, it=it, n=n):
+            if name.endswith(".r_object"):
+                n[0] += 1
+                try:
+                    return next(it)
+                except StopIteration:
+                    return Sym("past-end-of-script")
+            return NotImplemented
+        sp = Spec(T.F, hooks=[hook], opaque_funcs={"to_portable"})
+        inst = new_instance(cls, passed, version)
+        label = [("NULL" if x is N else repr(x)) for x in script]
+        try:
+            out = sp.run(f, [inst, True, False])
+            rets = [l.value for g, l in leaves(out) if isinstance(l, Ret)]
+        except Exception as ex:
+            bad.append("%s: not evaluable (%s)" % (label, ex))
+            continue
+        if len(rets) != 1 or not isinstance(rets[0], dict) or rets[0] != want or n[0] != nread:
+            bad.append("objects %s -> %s after %d reads (expected %r after %d)" % (label, [show(r) for r in rets][:2], n[0], want, nread))
+    return bad
+
+
 def _flat(effects):
     from ..sve import flatten_effects
     return flatten_effects(effects)
@@ -168,8 +203,14 @@ def reader_obligations(rep, T, want_rules=("R1", "R2", "R3", "R5", "R7", "R8", "
             where = "xdis/unmarshal.py:%d" % rs.line
             exp_shape = row["payload"]
             # R1 shape
-            sig = ("shape", repr(rs.shape))
-            groups.setdefault((code, suffix, "shape", repr(rs.shape), repr(exp_shape), where), []).append(v2)
+            got_shape = repr(rs.shape)
+            if code == "{" and "0" in readers:
+                # the dict reader has no count: its loop is decided by running it on scripted objects (any loop form), see dict_script
+                rn0 = summarise_reader(T, cls, readers["0"][0], passed, version)
+                nv0 = rn0.returns[0][1] if rn0 and rn0.returns else None
+                dbad = dict_script(T, cls, f, passed, version, nv0)
+                got_shape = repr(exp_shape) if not dbad else "scripted runs disagree: %s" % "; ".join(dbad[:2])
+            groups.setdefault((code, suffix, "shape", got_shape, repr(exp_shape), where), []).append(v2)
             # R1 kind (an integer read from a Python 2 file may be the 'L'-suffixed long wrapper; a Python 3 integer is a plain int)
             exp_k = row["kind"]
             got_k = rs.kind
@@ -275,18 +316,9 @@ def reader_obligations(rep, T, want_rules=("R1", "R2", "R3", "R5", "R7", "R8", "
                    msg="the NULL terminator decodes to %s, which %s also return: a dict with that key or value is truncated" % (show(nv), sorted(set(clash))))
             d = readers.get("{")
             if d:
-                rd = summarise_reader(T, cls, d[0], passed, version)
-                exits = rd.dict_exits
-                good = bool(exits)
-                bad = []
-                for g in exits:
-                    last = g[-1] if g else None
-                    s = show(last)
-                    okx = isinstance(last, Op) and last.op == "Is" and (last.args[1] is nv) and not clash
-                    if not okx:
-                        bad.append(s)
-                rep.ob("R7", "xdis.unmarshal._VersionIndependentUnmarshaller.t_%s" % d[0], "dict-terminates-only-on-null", good and not bad,
-                       expected="loop exits only when the key (or value) IS the NULL sentinel", derived=[show(g[-1]) for g in exits if g],
-                       where="xdis/unmarshal.py:%d" % rd.line,
-                       msg="dict reader stops on %s: a None key or value ends the dict early" % bad)
+                dbad = dict_script(T, cls, d[1], passed, version, nv) if not clash else ["the NULL sentinel is not distinguishable"]
+                rep.ob("R7", "xdis.unmarshal._VersionIndependentUnmarshaller.t_%s" % d[0], "dict-terminates-only-on-null", not dbad,
+                       expected="pairs are read until the key (or the value) IS the NULL sentinel; None, 0, False, '' and () are ordinary keys and values",
+                       derived=dbad[:3] or "6 scripted object sequences agree", where="xdis/unmarshal.py:%d" % d[1].node.lineno,
+                       msg="the dict reader does not stop exactly at the NULL terminator: %s" % "; ".join(dbad[:2]))
     return acc, readers
